@@ -27,6 +27,34 @@ claim("C08", "proof",
       "against the KAT vectors natively).",
       "CBMC code contracts (DFCC): enforced function contracts + loop contracts, SAT back end", "4/C08")
 
+claim("C01", "proof",
+      "ASCON-128/128a/80pq encryption (one-shot and incremental C entry points) is tied to ASCON v1.2 Algorithm 1 by three "
+      "layers of enforced CBMC contracts on the real code: permutation (C08), the duplex data loops of ascon-aead-common.c "
+      "(absorb: loop contracts, any length up to 2^40; encrypt: step proofs from an arbitrary state for every entry "
+      "position and every length below two rate blocks), and the entry points against the reference composition for "
+      "every key, nonce, AD, message and every length below 2^40 with the permutation abstract.",
+      "Meta-steps outside the solver: length generalisation of the write-loop step proofs (CBMC 6.11 loop contracts cannot "
+      "abstract loops that store through a moving pointer) and the instantiation of the L1 summary functions. Not "
+      "covered: C++ entry points, assembly permutation (assumed to satisfy the C08 contract); masked entry points are C10.",
+      "CBMC code contracts (DFCC): enforced function contracts, loop contracts, callee contracts in replaced form, uninterpreted permutation", "4/C01")
+claim("C02", "proof",
+      "ascon_aead_check_tag is proved exact for all 2^256 tag pairs (0 iff equal, else -1); the duplex decrypt loops by "
+      "step proofs (also in place); ascon128/128a/80pq_aead_decrypt and the incremental decrypt entry points against the "
+      "reference: short input -> -1 with an empty frame, otherwise plaintext = the specified duplex-decrypt call and result "
+      "= exact comparison of the supplied tag with the specified tag over the whole plaintext buffer; inverse-step lemma.",
+      "'Any change is rejected' is proved as 'accept iff the supplied tag equals the specified tag of the supplied inputs' "
+      "(a 128-bit collision is outside what code contracts can exclude). The plaintext wipe loop is bounded (labelled). "
+      "SIV/ISAP decryption: C06; masked: C10; C++ not covered.",
+      "CBMC code contracts (DFCC): enforced function contracts, callee contracts in replaced form, ghost call log", "4/C02")
+claim("C14", "proof",
+      "ascon_aead_increment_nonce is proved to be +1 mod 2^128 on the big-endian integer for all 2^128 nonces (every carry "
+      "chain), ascon_aead_set_counter its closed form, and ascon128/128a/80pq_aead_start to key the packet from the OLD "
+      "stored nonce, reset the position and store old+1, from an arbitrary session object; finalize leaves key and nonce unchanged.",
+      "C++ cipher objects (set_nonce padding/truncation, nonce handling on failed decryption) are not covered: CBMC's C++ "
+      "front end cannot parse this repository's C++. 'packet i == one-shot under N+i' composes this with C01 by induction "
+      "over packets (meta-step).",
+      "CBMC code contracts (DFCC): enforced closed-form function contracts", "4/C14")
+
 NA_DEFAULT = {
     "C11": "secret-independence of control flow and addresses is a relational (2-safety) property of the shipped object code; a CBMC contract describes one execution of the C source and has no taint or relational mode (DESIGN section 6)",
     "C17": "compilability of C++ members is a compiler verdict, and CBMC's C++ front end rejects this repository's C++ (DESIGN 2.8, section 6)",
